@@ -261,7 +261,7 @@ func runJob(ld *loaded, job *Job) *JobResult {
 		}
 	}
 	pf := NewPortfolio(order, lim[0], lim[1], lim[2], job.SmtLog)
-	pf.crossEvery = 64
+	pf.crossEvery = 128
 	if v := os.Getenv("VERIF_CROSSCHECK"); v != "" {
 		if n, err := strconv.Atoi(v); err == nil {
 			pf.crossEvery = n
